@@ -2,21 +2,39 @@
 (* Histories of image additions across slides, placeholders, movie posters and OLE icons with saves and re-opens
    in between (the SHA1 lookup is rebuilt from the loaded parts after a re-open).  Model state: which images are stored. *)
 EXTENDS Media, Json
-CONSTANTS DEPTH, NIMG, NSLIDES, OPS
+CONSTANTS DEPTH, NIMG, NSLIDES, OPS,
+          ARGS, VIAS,     \* size-argument patterns and sources explored by AddPicture
+          LOGO            \* 0: the deck is the default template; i > 0: slide layout 11 of the initial deck carries a picture of image i
 VARIABLES st, hist
 DummyU == <<>>
+AllArgs == {"none", "w", "h", "both"}
+AllVias == {"stream", "path"}
+\* Impl layer of the image part names (Package.next_image_partname: the first free sequence number, whatever the extension):
+\* st.parts = the reachable image parts as [img, num]; st.used = images referenced from slides; st.logoLay = layout 11 still there
+Nums(parts) == {p.num : p \in parts}
+NextNum(parts) == CHOOSE n \in 1..(Cardinality(parts) + 1) : n \notin Nums(parts) /\ \A m \in 1..(n - 1) : m \in Nums(parts)
+Stored(parts) == {p.img : p \in parts}
+Store(parts, i) == IF i \in Stored(parts) THEN parts ELSE parts \cup {[img |-> i, num |-> NextNum(parts)]}
+Use(s, i) == [s EXCEPT !.parts = Store(@, i), !.used = @ \cup {i}]
 Act(op, slide, img, args, via) == [op |-> op, slide |-> slide, img |-> img, args |-> args, via |-> via, cx |-> 1234567, cy |-> 765432]
-Init == st = [stored |-> {}, npics |-> 0, last |-> "open", reopened |-> FALSE] /\ hist = <<>>
+Init == st = [parts |-> IF LOGO > 0 THEN {[img |-> LOGO, num |-> 1]} ELSE {}, used |-> {}, logoLay |-> LOGO > 0,
+              npics |-> 0, last |-> "open", reopened |-> FALSE] /\ hist = <<>>
 Step(a, t) == Len(hist) < DEPTH /\ a.op \in OPS /\ st' = [t EXCEPT !.last = a.op] /\ hist' = Append(hist, a)
-AddPicture == \E k \in 1..NSLIDES, i \in 1..NIMG, g \in {"none", "w", "h", "both"}, v \in {"stream", "path"} :
+AddPicture == \E k \in 1..NSLIDES, i \in 1..NIMG, g \in ARGS, v \in VIAS :
                  (g = "none" \/ v = "stream") /\
-                 Step(Act("addPicture", k, i, g, v), [st EXCEPT !.stored = @ \cup {i}, !.npics = @ + 1])
-InsertPicture == \E i \in 1..NIMG : Step(Act("insertPicture", 1, i, "none", "stream"), [st EXCEPT !.stored = @ \cup {i}, !.npics = @ + 1])
-AddMovie == \E i \in 0..NIMG : Step(Act("addMovie", 1, i, "none", "stream"), [st EXCEPT !.stored = IF i = 0 THEN @ \cup {NIMG + 1} ELSE @ \cup {i}])
-AddOle   == \E i \in 0..NIMG : Step(Act("addOle", 2, i, "none", "stream"), [st EXCEPT !.stored = IF i = 0 THEN @ \cup {NIMG + 2} ELSE @ \cup {i}])
+                 Step(Act("addPicture", k, i, g, v), [Use(st, i) EXCEPT !.npics = @ + 1])
+InsertPicture == \E i \in 1..NIMG : Step(Act("insertPicture", 1, i, "none", "stream"), [Use(st, i) EXCEPT !.npics = @ + 1])
+AddMovie == \E i \in 0..NIMG : Step(Act("addMovie", 1, i, "none", "stream"), Use(st, IF i = 0 THEN NIMG + 1 ELSE i))
+AddOle   == \E i \in 0..NIMG : Step(Act("addOle", IF NSLIDES > 1 THEN 2 ELSE 1, i, "none", "stream"), Use(st, IF i = 0 THEN NIMG + 2 ELSE i))
+\* the layout that carries the logo is removed (no slide uses it): its image part goes unless a slide shows the same image
+RemoveLayout == st.logoLay /\
+                 Step(Act("removeLayout", 0, 0, "none", ""),
+                      [st EXCEPT !.logoLay = FALSE, !.parts = IF LOGO \in st.used THEN @ ELSE {p \in @ : p.img # LOGO}])
 Save     == st.last # "save" /\ Step(Act("save", 0, 0, "none", ""), st)
 Reopen   == st.last # "reopen" /\ Step(Act("reopen", 0, 0, "none", ""), [st EXCEPT !.reopened = TRUE])
-Next == AddPicture \/ InsertPicture \/ AddMovie \/ AddOle \/ Save \/ Reopen
+Next == AddPicture \/ InsertPicture \/ AddMovie \/ AddOle \/ Save \/ Reopen \/ RemoveLayout
+\* design check of the transcribed allocator: live image parts never share a sequence number, one part per image
+NamesFresh == \A p, q \in st.parts : (p.num = q.num \/ p.img = q.img) => p = q
 Spec == Init /\ [][Next]_<<st, hist>>
 ViewSt == st
 EmitState == PrintT(<<"ST", ToJson(hist)>>)
